@@ -61,6 +61,7 @@ pub fn strategy(k: FloatKind, rx: Radices, ec: u8) -> BoxedStrategy<Case> {
         3 => gen::fastpath_text(k, rx, b'.', ec),
         1 => gen::range_edge_text(k, rx, b'.', ec),
         1 => gen::beyond_range_text(k, rx, b'.', ec),
+        1 => gen::limb_aligned_text(k, rx, b'.', ec),
     ];
     (text, any::<u16>()).prop_map(|((text, class), j)| Case { text, class, junk: JUNK[gen::pick(j, JUNK.len())] }).boxed()
 }
@@ -216,14 +217,16 @@ pub fn check(j: &Job, c: &Case, l: &mut Local, lossy_mode: bool) -> CaseResult {
                 let diff = if lm > cm { lm - cm } else { cm - lm };
                 // zero / infinity: unchanged, except in the last rounding zone next to the range end
                 // (the statement's "neighbour" clause and "unchanged" clause both apply there, so
-                // both outcomes are accepted: value in [MAX, MAX+ulp) or in (0, min_subnormal))
+                // both outcomes are accepted for a value in [MAX, MAX+ulp); zero stays zero)
                 let boundary_zone = match vcore::numtext::exact_value(&parts, rx) {
                     vcore::numtext::Exact::Val(v) => {
                         if cm == k.inf_bits() {
                             let (_, q) = k.decode(k.max_finite_bits());
                             v.cmp_m_q(1u128 << k.p, q) == std::cmp::Ordering::Less
                         } else {
-                            cm == 0
+                            // a result of zero is exact in the non-lossy parser for every value up to
+                            // half the smallest subnormal; lossy may not turn it into a subnormal
+                            false
                         }
                     },
                     _ => false,
@@ -290,7 +293,7 @@ pub fn run_c05(ctx: &Ctx, rep: &mut Report) {
         rep.notes.push("no non-decimal formats in this configuration".into());
         return;
     }
-    let per = ctx.n(2500, 400_000);
+    let per = ctx.n(10_000, 400_000);
     run_prop_jobs(
         rep,
         ctx,
@@ -318,7 +321,7 @@ pub fn run_c19(ctx: &Ctx, rep: &mut Report) {
         .into();
     rep.assumptions = vec!["'decided by the exact fast path' is computed by the harness as a subset of the documented fast-path condition".into()];
     let js = jobs(|_, _| true);
-    let per = ctx.n(if js.len() > 10 { 2500 } else { 60_000 }, 400_000);
+    let per = ctx.n(if js.len() > 10 { 10_000 } else { 240_000 }, 400_000);
     run_prop_jobs(
         rep,
         ctx,
